@@ -1052,6 +1052,8 @@ class Models:
             for r in list(h.roots):
                 h.roots[r] = fresh('yn_' + r, so.YNode)
                 h.assume(so.is_N(h.roots[r]))
+            if h.sav is not None and eng.may_trace():
+                h.sav = fresh('sav', so.TySeq)
         i = fresh('i', so.I)
         acc = fresh('acc', so.B if fuse else accsort)
         idx = fresh('idx', so.IntSeq) if refable else None
